@@ -1003,10 +1003,30 @@ fn parse_r6rs_char<'de, R: Read<'de> + ?Sized>(
             b"esc" => Ok('\x1B'),
             b"space" => Ok(' '),
             b"delete" => Ok('\x7F'),
+            // At the end of input, the beginning of a character name may
+            // still become a character constant when more input arrives.
+            name if read.peek()?.is_none() && CHAR_NAMES.iter().any(|n| n.starts_with(name)) => {
+                error(read, ErrorCode::EofWhileParsingCharacterConstant)
+            }
             _ => error(read, ErrorCode::InvalidCharacterConstant),
         }
     }
 }
+
+static CHAR_NAMES: [&[u8]; 12] = [
+    b"nul",
+    b"alarm",
+    b"backspace",
+    b"tab",
+    b"linefeed",
+    b"newline",
+    b"vtab",
+    b"page",
+    b"return",
+    b"esc",
+    b"space",
+    b"delete",
+];
 
 /// Expects a `#\x` sequence has just been consumed; returns the value of the
 /// subsequent hex digits, or `None`, if the sequence was empty.
@@ -1207,7 +1227,7 @@ pub(crate) fn decode_utf8_sequence<'de, R: Read<'de> + ?Sized>(
     for _ in 0..len {
         let b = match read.next()? {
             Some(c) => c,
-            None => return error(read, ErrorCode::InvalidUnicodeCodePoint),
+            None => return error(read, ErrorCode::EofWhileParsingValue),
         };
         scratch.push(b);
     }
